@@ -48,7 +48,11 @@ class Gen6(ac.Gen):
         for _ in range(self.r.randint(0, 2)):
             v = self.fresh()
             a, b = self.r.choice(vals), self.r.choice(vals)
-            out.append(f"{ind}{v} = arith.{self.r.choice(['addi', 'muli', 'subi'])} {a}, {b} : i32")
+            if self.readcall and self.r.random() < self.readcall:
+                # an impure input of the setup (a call returning a value): the setup must stay behind it, it must not be cloned
+                out.append(f'{ind}{v} = func.call @r() {{"accfg.effects" = #accfg.effects<none>}} : () -> i32')
+            else:
+                out.append(f"{ind}{v} = arith.{self.r.choice(['addi', 'muli', 'subi'])} {a}, {b} : i32")
             vals += [v, v]
         return out + super().setup_launch(vals, ind, cur)
 
@@ -80,6 +84,8 @@ class C06(Prop):
                 g.nested = 0.7  # nests of rotation candidates: inner head setups read values of the enclosing loop bodies
                 g.accs = g.accs[:1] if rng.random() < 0.7 else g.accs
                 g.scope_accs = [g.accs]
+            if i % 6 == 2:
+                g.readcall = 0.3
             g.before = i % 7 == 5  # another function in front of @f: every function is transformed as if it were alone
             if i % 4 == 3:
                 g.ifinput = 0.3  # a conditional computing from a region-local and an outer value is itself a setup input
